@@ -18,7 +18,7 @@ RULE = ("Hypothesis-generated 2D/3D plotfiles (1-3 nested levels, mixed box exte
         "distinct = distinct case JSON.")
 ASSUMPTIONS = ["refinement ratio 2 (hard-coded by every tool)", "in-process schedule-owning pool (identity order here; C12 varies it)"]
 
-UNKNOWN = ["nope", "Temp", "temp ", "Y(XX)"]
+UNKNOWN = ["nope", "Temp", "temp ", "Y(XX)", "all"]        # 'all' beside other names is a name no field carries
 
 
 @st.composite
@@ -59,6 +59,8 @@ def check_case(case, ctx):
     else:
         variables = [names[i] if i < nf else UNKNOWN[i - nf] for i in case["vars"]]
         kept = [v for v in variables if v in names]
+        if variables == ["all"]:
+            kept = list(names)
     fi = [names.index(n) for n in kept]
     limit = case["limit"]
     L = plot.nlev - 1 if limit is None else limit
